@@ -547,8 +547,8 @@ posit8_t posit8_reciprocal(posit8_t rhs) {
 // posit - posit binary logic functions
 bool posit8_equal(posit8_t lhs, posit8_t rhs)          { return lhs.v == rhs.v;  }
 bool posit8_notEqual(posit8_t lhs, posit8_t rhs)       { return lhs.v != rhs.v;  }
-bool posit8_lessThan(posit8_t lhs, posit8_t rhs)       { return lhs.v < rhs.v; }
-bool posit8_greaterThan(posit8_t lhs, posit8_t rhs)    { return lhs.v > rhs.v;  }
-bool posit8_lessOrEqual(posit8_t lhs, posit8_t rhs)    { return lhs.v <= rhs.v; }
-bool posit8_greaterOrEqual(posit8_t lhs, posit8_t rhs) { return lhs.v >= rhs.v; }
+bool posit8_lessThan(posit8_t lhs, posit8_t rhs)       { return (int8_t)lhs.v < (int8_t)rhs.v; }
+bool posit8_greaterThan(posit8_t lhs, posit8_t rhs)    { return (int8_t)lhs.v > (int8_t)rhs.v;  }
+bool posit8_lessOrEqual(posit8_t lhs, posit8_t rhs)    { return (int8_t)lhs.v <= (int8_t)rhs.v; }
+bool posit8_greaterOrEqual(posit8_t lhs, posit8_t rhs) { return (int8_t)lhs.v >= (int8_t)rhs.v; }
 
